@@ -155,7 +155,29 @@ def _build_def(freeze=True):
     return {'c9def': db}
 
 
-_FAMILIES = {'c9def': _build_def, 'c9kw': _build_kw, 'c9obj': _build_obj, 'c9obj2': _build_obj, 'c9bad': _build_bad,
+_vb_parser = []
+
+
+def _build_verb(freeze=True):
+    """an environment whose verbatim body parser is ONE object owned by the specification and reused by every parse
+    (the pylatexenc-3 verbatim-environment parser; real code only: custom body parsers are outside the model)"""
+    from pylatexenc.macrospec import LatexContextDb, MacroSpec, EnvironmentSpec
+    from pylatexenc.latexnodes.parsers import LatexVerbatimEnvironmentContentsParser
+    if not _vb_parser:
+        _vb_parser.append(LatexVerbatimEnvironmentContentsParser(environment_name='vb'))
+    shared = _vb_parser[0]
+    db = LatexContextDb()
+    db.add_context_category('vb', macros=[MacroSpec('ok', '{')],
+                            environments=[EnvironmentSpec('vb', '', make_body_parser=lambda *a, **k: shared)])
+    db.set_unknown_macro_spec(MacroSpec(''))
+    db.set_unknown_environment_spec(EnvironmentSpec(''))
+    if freeze:
+        db.freeze()
+    return {'c9verb': db}
+
+
+UNMODELLED = ('c9def', 'c9verb')
+_FAMILIES = {'c9verb': _build_verb, 'c9def': _build_def, 'c9kw': _build_kw, 'c9obj': _build_obj, 'c9obj2': _build_obj, 'c9bad': _build_bad,
              'default': _build_default}
 _shared = {}
 
@@ -322,7 +344,7 @@ def w_sctx(cx, objs):
 
 def mk_case(jobs, origin):
     """jobs: [{'ctx': name, 's': str, 'tolerant': bool, 'db': 'shared'|'fresh'}]"""
-    if any(j['ctx'] == 'c9def' for j in jobs):
+    if any(j['ctx'] in UNMODELLED for j in jobs):
         # outside the modelled fragment (entry 999 does not exist: model and impl both answer BADIN); the oracle
         # (pristine interpreter, database fingerprint) is what decides these histories
         return {'wire': [999], 'desc': {'jobs': jobs, 'origin': origin, 'unmodelled': True}, 'nt': True}
@@ -423,6 +445,14 @@ def gen_cases(seed, tier):
                 continue
             for tol in (False, True):
                 cases.append(mk_case([{'ctx': 'c9def', 's': s, 'tolerant': tol, 'db': 'shared'} for s in docs], 'defining-macro'))
+    # one verbatim-body parser object, parses whose states differ in the escape character
+    vdocs = [('\\', 'a \\begin{vb}x{y\\end{vb} b\\ok{c}'), ('!', 'u !begin{vb}p\\end{vb}q!end{vb} v!ok{w}'),
+             ('\\', '\\begin{vb}!end{vb}\\end{vb}z'), ('!', '!begin{vb}!end{vb}\\end{vb}')]
+    for n in (2, 3):
+        for docs in itertools.permutations(vdocs, n):
+            for tol in (False, True):
+                cases.append(mk_case([{'ctx': 'c9verb', 's': s, 'tolerant': tol, 'db': 'shared', 'esc': e} for e, s in docs],
+                                     'shared-body-parser'))
     cases.append(mk_case([{'ctx': 'c9def', 's': ddocs[1], 'tolerant': False, 'db': 'shared'},
                           {'ctx': 'c9def', 's': ddocs[0], 'tolerant': False, 'db': 'fresh'},
                           {'ctx': 'c9def', 's': ddocs[1], 'tolerant': False, 'db': 'shared'}], 'defining-macro'))
@@ -469,7 +499,20 @@ def job_db(j):
 
 
 def run_job(j, db=False):
-    return P.parse_top(j['s'], j['tolerant'], job_db(j) if db is False else db)
+    db = job_db(j) if db is False else db
+    if j.get('esc') is None:
+        return P.parse_top(j['s'], j['tolerant'], db)
+    # a parse whose parsing state has another escape character
+    from pylatexenc.latexwalker import LatexWalker
+    from pylatexenc.latexnodes.parsers import LatexGeneralNodesParser
+    w = LatexWalker(j['s'], tolerant_parsing=j['tolerant'], latex_context=db)
+    tr = w.make_token_reader()
+    ps = w.make_parsing_state(macro_escape_char=j['esc'])
+
+    def go():
+        nodes, _ = w.parse_content(LatexGeneralNodesParser(), token_reader=tr, parsing_state=ps)
+        return nodes, tr.cur_pos()
+    return P.outcome(go)
 
 
 def impl(c):
@@ -527,9 +570,9 @@ def _ask(req):
 
 def fresh_result(j):
     """the dump of job j run as the only parse of a pristine interpreter state"""
-    key = (j['ctx'], j['s'], j['tolerant'])
+    key = (j['ctx'], j['s'], j['tolerant'], j.get('esc'))
     if key not in _fresh_memo:
-        _fresh_memo[key] = _ask({'job': {'ctx': j['ctx'], 's': j['s'], 'tolerant': j['tolerant']}})
+        _fresh_memo[key] = _ask({'job': {'ctx': j['ctx'], 's': j['s'], 'tolerant': j['tolerant'], 'esc': j.get('esc')}})
     return _fresh_memo[key]
 
 
@@ -648,7 +691,7 @@ def oracle(c):
             shared.append((j['ctx'], shared_db(j['ctx'])))
     before = {n: fingerprint(db) for n, db in shared}
     frozen_before = {n: db.frozen for n, db in shared}
-    wires_before = {n: json.dumps(spell_wire_of(db)) for n, db in shared if n != 'c9def'}
+    wires_before = {n: json.dumps(spell_wire_of(db)) for n, db in shared if n not in UNMODELLED}
     # instances already off their invariant when this history starts were reported by the history that did it
     already = {id(p) for w, k, p in std_instances(shared) if check_instance(w, k, p)}
     results = []
